@@ -20,9 +20,32 @@ import math
 import sys
 import warnings
 
-import numpy as np
+import os
+import pickle
 
-import pydl
+import numpy as np
+from astropy.io import fits as _fits
+
+
+def global_state():
+    """process-global settings a library must leave alone"""
+    from astropy.config import ConfigItem
+    conf = {k: repr(getattr(_fits.conf, k)) for k, v in vars(type(_fits.conf)).items() if isinstance(v, ConfigItem)}
+    return {'np.geterr': dict(np.geterr()), 'np.printoptions': {k: repr(v) for k, v in np.get_printoptions().items()},
+            'astropy.io.fits.conf': conf, 'os.environ': dict(os.environ)}
+
+
+def state_diff(a, b):
+    out = []
+    for k in a:
+        if a[k] != b[k]:
+            keys = sorted(set(a[k]) | set(b[k]))
+            out.append({'what': k, 'changed': {x: [a[k].get(x), b[k].get(x)] for x in keys if a[k].get(x) != b[k].get(x)}})
+    return out
+
+
+STATE0 = global_state()
+import pydl  # noqa: E402
 from pydl.goddard.math import flegendre
 from pydl.pydlutils.trace import (fchebyshev, fchebyshev_split, fpoly, func_fit, TraceSet,
                                   traceset2xy, xy2traceset)
@@ -36,6 +59,33 @@ def err(e):
 
 def arr(a, dtype='d'):
     return None if a is None else np.array(a, dtype=dtype)
+
+
+def mask_arr(m, dtype='bool'):
+    """a True/False mask in the storage type `dtype` (bool, i1..i8, u1, f4, f8: 1 = use the point, 0 = reject it)"""
+    return np.array(m, dtype=bool).astype(dtype)
+
+
+BOOL_TOKENS = {'False': False, '0': 0, 'None': None, 'True': True, '1': 1, 'npFalse': np.bool_(False), 'npTrue': np.bool_(True)}
+
+
+def layout(a, how):
+    """the same 2-D array (values, dtype, shape) in another memory layout"""
+    if a is None or how in (None, 'C') or not isinstance(a, np.ndarray) or a.ndim != 2:
+        return a
+    if how == 'F':
+        return np.asfortranarray(a)
+    if how == 'T':
+        return np.ascontiguousarray(a.T).T
+    if how == 'strided':
+        big = np.zeros((a.shape[0], 2 * a.shape[1] + 1), dtype=a.dtype)
+        big[:, 1::2] = a
+        return big[:, 1::2]
+    if how == 'rev':
+        return np.ascontiguousarray(a[:, ::-1])[:, ::-1]
+    if how == 'revrows':
+        return np.ascontiguousarray(a[::-1, :])[::-1, :]
+    raise ValueError(how)
 
 
 def tolist(a):
@@ -86,9 +136,9 @@ def build_traceset(mk):
         return TraceSet(make_fits_rec(mk))
     kw = {'func': mk['func'], 'ncoeff': mk['ncoeff']}
     if mk.get('ivar') is not None:
-        kw['invvar'] = arr(mk['ivar'])
+        kw['invvar'] = arr(mk['ivar'], mk.get('ivdtype', 'd'))
     if mk.get('inmask') is not None:
-        kw['inmask'] = np.array(mk['inmask'], dtype=bool)
+        kw['inmask'] = mask_arr(mk['inmask'], mk.get('mdtype', 'bool'))
     if mk.get('xmin') is not None:
         kw['xmin'] = mk['xmin']
     if mk.get('xmax') is not None:
@@ -193,7 +243,8 @@ def call(c):
                 x = arr(c['x'], xdt)
                 y = arr(c['y'], ydt)
                 g = Guard(x=x, y=y, **kw)
-                res, yfit = func_fit(x, y, c['ncoeff'], function_name=c.get('fname', c['func']), **kw)
+                ncv = {'npint64': np.int64, 'npint32': np.int32}.get(c.get('nctype'), int)(c['ncoeff'])
+                res, yfit = func_fit(x, y, ncv, function_name=c.get('fname', c['func']), **kw)
                 changed = g.changed()
                 # the same call again (fresh result arrays): modifying the first result must not matter
                 r1, f1 = res.copy(), yfit.copy()
@@ -218,17 +269,19 @@ def call(c):
                 if c.get('maxiter') is not None:
                     kw['maxiter'] = c['maxiter']
                 if c.get('ivar') is not None:
-                    kw['invvar'] = arr(c['ivar'])
+                    kw['invvar'] = arr(c['ivar'], c.get('ivdtype', 'd'))
                 if c.get('inmask') is not None:
-                    kw['inmask'] = np.array(c['inmask'], dtype=bool)
+                    kw['inmask'] = mask_arr(c['inmask'], c.get('mdtype', 'bool'))
                 if c.get('xmin') is not None:
                     kw['xmin'] = c['xmin']
                 if c.get('xmax') is not None:
                     kw['xmax'] = c['xmax']
                 if c.get('jump') is not None:
                     kw['xjumplo'], kw['xjumphi'], kw['xjumpval'] = c['jump']
-                xpos = arr(c['xpos'], c.get('xdtype', 'd'))
-                ypos = arr(c['ypos'], c.get('ydtype', 'd'))
+                lay = c.get('layout')
+                kw = {k: layout(v, lay) for k, v in kw.items()}
+                xpos = layout(arr(c['xpos'], c.get('xdtype', 'd')), lay)
+                ypos = layout(arr(c['ypos'], c.get('ydtype', 'd')), lay)
                 g = Guard(xpos=xpos, ypos=ypos, **{k: v for k, v in kw.items() if isinstance(v, np.ndarray)})
                 tset = xy2traceset(xpos, ypos, **kw)
                 x1, y1 = traceset2xy(tset, xpos)
@@ -244,13 +297,38 @@ def call(c):
                 if c.get('jump') is not None:
                     x3, y3 = traceset2xy(tset, xpos, ignore_jump=True)
                     out['nojump_y'] = tolist(y3)
+                if c.get('junk') is not None:
+                    # the same problem with other data at the points of zero weight (invvar 0 or rejected by inmask)
+                    yj = layout(arr(c['junk'], c.get('ydtype', 'd')), lay)
+                    tj = xy2traceset(xpos, yj, **kw)
+                    out['coeff_junk'] = tolist(tj.coeff)
+                    out['junk_finite'] = finite(tj.coeff)
                 return {'ok': out}
             if f == 'eval':
                 rec = make_fits_rec(c)
                 tset = TraceSet(rec)
-                xpos = arr(c['xpos'], c.get('xdtype', 'd'))
+                if c.get('derived') == 'pickle':
+                    tset = pickle.loads(pickle.dumps(tset))
+                elif c.get('derived') == 'deepcopy':
+                    tset = copy.deepcopy(tset)
+                xpos = layout(arr(c['xpos'], c.get('xdtype', 'd')), c.get('layout'))
                 g = Guard(xpos=xpos)
-                x1, y1 = traceset2xy(tset, xpos, ignore_jump=bool(c.get('ignore_jump')))
+                if c.get('ij_token') == 'omit':
+                    x1, y1 = traceset2xy(tset, xpos)
+                elif c.get('ij_token') is not None:
+                    x1, y1 = traceset2xy(tset, xpos, ignore_jump=BOOL_TOKENS[c['ij_token']])
+                else:
+                    x1, y1 = traceset2xy(tset, xpos, ignore_jump=bool(c.get('ignore_jump')))
+                if c.get('big_grid'):
+                    # default grid too long to be sent out: checked here (xmin + k, floor(xmax - xmin + 1) columns), a sample returned
+                    xmin, xmax = float(tset.xmin), float(tset.xmax)
+                    nx = int(math.floor(xmax - xmin + 1))
+                    okg = bool(x1.shape == (tset.nTrace, nx) and all(np.array_equal(row, xmin + np.arange(nx)) for row in x1))
+                    idx = sorted(set([0, nx - 1] + [int(v) % nx for v in c['big_grid']]))
+                    if not finite(x1, y1):
+                        return {'err': 'nonfinite'}
+                    return {'ok': {'big': True, 'grid_ok': okg, 'shape': list(x1.shape), 'want_nx': nx,
+                                   'x': tolist(x1[:, idx]), 'y': tolist(y1[:, idx]), 'args_changed': []}}
                 if not finite(x1, y1):
                     return {'err': 'nonfinite'}
                 return {'ok': {'x': tolist(x1), 'y': tolist(y1), 'nx': int(tset.nx), 'has_jump': bool(tset.has_jump),
@@ -258,6 +336,9 @@ def call(c):
                                'ntrace': int(tset.nTrace), 'ncoeff': int(tset.ncoeff), 'func': str(tset.func)}}
             if f == 'history':
                 return history(c)
+            if f == 'seq':
+                # several calls one after the other in THIS process (class-/module-level state would be shared)
+                return {'ok': {'results': [call(d) for d in c['calls']]}}
             return {'err': 'BadCall'}
     except Exception as e:  # noqa: BLE001 - the error class is the observation
         return err(e)
@@ -265,7 +346,10 @@ def call(c):
 
 def main():
     calls = json.load(sys.stdin)
+    state1 = global_state()
     out = {'pydl_file': pydl.__file__, 'results': [call(c) for c in calls]}
+    out['globals_changed_by_import'] = state_diff(STATE0, state1)
+    out['globals_changed_by_calls'] = state_diff(state1, global_state())
     json.dump(out, sys.stdout)
 
 
